@@ -229,6 +229,10 @@ class Merger(object):
         channel_positions_l = [
             a if np.issubdtype(a.dtype, np.floating) else a.astype(np.float64)
             for a in channel_positions_l]
+        # Probes stored with different precisions: translate all of them in the widest one (an offset
+        # added in place to a single precision probe would be rounded to single precision).
+        dtype = np.result_type(*[a.dtype for a in channel_positions_l])
+        channel_positions_l = [a.astype(dtype, copy=False) for a in channel_positions_l]
         x_offset = 0.
         for array in channel_positions_l:
             array[:, 0] += x_offset
